@@ -1,5 +1,7 @@
 import TxV.Util.AuditCmd
 import TxV.Props.C07
 import TxV.Props.C07b
+import TxV.Props.SourceTie
 #txv_audit TxV.Props.C07
 #txv_audit TxV.Props.C07b
+#txv_audit TxV.Props.SourceTie
